@@ -9,7 +9,7 @@ from ..cfg import calls_at
 from ..core import Checker
 from ..loader import Func, norm, walk_expr, walk_own
 from ..prov import refers_to_call, call_name, expand, get_arg, scope_of
-from .transfer_common import TransferModel, build_model, is_dir_ident
+from .transfer_common import TransferModel, build_model, check_oneshot, is_dir_ident
 
 
 def names(e: ast.AST) -> Set[str]:
@@ -84,9 +84,30 @@ def check(ck: Checker) -> None:
         for alt in alts:
             nm = names(alt)
             if "missing_ids" in nm and (m.entry_ids in nm or m.dir_obj in nm):
+                if not _whole_listing_vs_missing(alt):
+                    continue
                 if isinstance(alt, ast.Call) and is_method_call(alt, "isdisjoint"):
                     return lab == "T"
                 return lab == "F"
+        return False
+
+    def _whole_listing_vs_missing(alt: ast.expr) -> bool:
+        """the operand met with missing_ids is the directory's complete listing, not a subset of it"""
+        ops = []
+        if isinstance(alt, ast.Call) and is_method_call(alt, "intersection", "isdisjoint") and len(alt.args) == 1:
+            ops = [alt.func.value, alt.args[0]]
+        elif isinstance(alt, ast.BinOp) and isinstance(alt.op, ast.BitAnd):
+            ops = [alt.left, alt.right]
+        else:
+            return True  # some other spelling: keep the old (weaker) reading
+        other = [o for o in ops if "missing_ids" not in names(o)]
+        if len(other) != 1:
+            return True
+        allowed = {m.entry_ids, m.dir_obj, "_"}
+        for o in [other[0]] + expand(prog, move, other[0]):
+            bound = {x.id for c_ in walk_expr(o) if isinstance(c_, ast.comprehension) for x in walk_expr(c_.target) if isinstance(x, ast.Name)}
+            if names(o) - bound <= allowed and names(o) & {m.entry_ids, m.dir_obj}:
+                return True
         return False
 
     def covers_earlier_failures(t) -> Optional[str]:
@@ -131,6 +152,7 @@ def check(ck: Checker) -> None:
                        witness=g.fmt_path(wit) if wit else None,
                        construct=f"{d.text()} / {name}")
 
+    check_oneshot(ck, "C04.guard", [move])
     success_edge = reported_rule(ck, m, "C04.reported")
 
     # -------------------------------------------------------------- onerror
